@@ -515,4 +515,127 @@ theorem bottleneck_triangle
 
 end Triangle
 
+/-! ### triangle inequality (min–sum) -/
+section TriangleSum
+variable {L : Type} [Fintype L] [Fintype M] [Fintype N] [DecidableEq L] [DecidableEq M] [DecidableEq N]
+  [AddCommMonoid K] [LinearOrder K] [IsOrderedAddMonoid K]
+
+omit [LinearOrder K] [IsOrderedAddMonoid K] [Fintype L] [DecidableEq L] in
+/-- summing a quantity over the matched pairs, from either side -/
+theorem PM.sum_matched_comm (p : PM M N) (F : M → N → K) :
+    (∑ i, match p.f i with | some j => F i j | none => 0)
+      = ∑ j, match p.g j with | some i => F i j | none => 0 := by
+  rw [PM.sum_matched_eq p F]
+  have := PM.sum_matched_eq p.symm (fun j i => F i j)
+  simp only [PM.symm_f] at this
+  rw [this, Finset.sum_comm]
+  refine Finset.sum_congr rfl fun j _ => Finset.sum_congr rfl fun i _ => ?_
+  simp only [← p.fg i j]
+
+/-- the composed matching costs at most the sum of the two -/
+theorem PM.sumCost_comp_le (p : PM L M) (q : PM M N)
+    {cLM : L → M → K} {cMN : M → N → K} {cLN : L → N → K} {uL : L → K} {uM : M → K} {uN : N → K}
+    (htri : ∀ i j k, cLN i k ≤ cLM i j + cMN j k)
+    (hL : ∀ i j, uL i ≤ cLM i j + uM j) (hN : ∀ j k, uN k ≤ uM j + cMN j k)
+    (hcMN : ∀ j k, 0 ≤ cMN j k) (huM : ∀ j, 0 ≤ uM j) :
+    (p.comp q).sumCost cLN uL uN ≤ p.sumCost cLM uL uM + q.sumCost cMN uM uN := by
+  have hrq : ∀ j, 0 ≤ q.rowCost cMN uM j := fun j => by
+    unfold PM.rowCost; cases q.f j <;> simp [hcMN, huM]
+  -- row bound
+  have B1 : ∀ i, (p.comp q).rowCost cLN uL i
+      ≤ p.rowCost cLM uL i + (match p.f i with | some j => q.rowCost cMN uM j | none => 0) := by
+    intro i
+    cases hf : p.f i with
+    | none =>
+      have hc : (p.comp q).f i = none := by simp [PM.comp, hf]
+      rw [PM.rowCost_none _ _ _ hc, PM.rowCost_none _ _ _ hf]; simp
+    | some j =>
+      rw [PM.rowCost_some _ _ _ hf]
+      cases hg : q.f j with
+      | none =>
+        have hc : (p.comp q).f i = none := by simp [PM.comp, hf, hg]
+        rw [PM.rowCost_none _ _ _ hc]
+        show _ ≤ cLM i j + q.rowCost cMN uM j
+        rw [PM.rowCost_none _ _ _ hg]; exact hL i j
+      | some k =>
+        have hc : (p.comp q).f i = some k := by simp [PM.comp, hf, hg]
+        rw [PM.rowCost_some _ _ _ hc]
+        show _ ≤ cLM i j + q.rowCost cMN uM j
+        rw [PM.rowCost_some _ _ _ hg]; exact htri i j k
+  -- column bound
+  let G : M → K := fun j => match p.g j with
+    | some _ => 0
+    | none => uM j + q.rowCost cMN uM j
+  have B2 : ∀ k, (p.comp q).colCost uN k
+      ≤ q.colCost uN k + (match q.g k with | some j => G j | none => 0) := by
+    intro k
+    unfold PM.colCost
+    cases hg : q.g k with
+    | none =>
+      have hc : (p.comp q).g k = none := by simp [PM.comp, hg]
+      simp [hc]
+    | some j =>
+      cases hpg : p.g j with
+      | some i =>
+        have hc : (p.comp q).g k = some i := by simp [PM.comp, hg, hpg]
+        simp [hc, G, hpg]
+      | none =>
+        have hc : (p.comp q).g k = none := by simp [PM.comp, hg, hpg]
+        have hq : q.rowCost cMN uM j = cMN j k := PM.rowCost_some _ _ _ ((q.fg j k).mpr hg)
+        simp only [hc, G, hpg, hq, zero_add]
+        exact hN j k
+  -- per middle point
+  have PJ : ∀ j, (match p.g j with | some _ => q.rowCost cMN uM j | none => 0)
+      + (match q.f j with | some _ => G j | none => 0) ≤ p.colCost uM j + q.rowCost cMN uM j := by
+    intro j
+    unfold PM.colCost
+    cases hpg : p.g j with
+    | some i =>
+      have hG : G j = 0 := by simp [G, hpg]
+      cases q.f j <;> simp [hG]
+    | none =>
+      have hG : G j = uM j + q.rowCost cMN uM j := by simp [G, hpg]
+      cases q.f j with
+      | none => simpa using add_nonneg (huM j) (hrq j)
+      | some k => simp [hG]
+  have S1 : (∑ i, match p.f i with | some j => q.rowCost cMN uM j | none => 0)
+      = ∑ j, match p.g j with | some _ => q.rowCost cMN uM j | none => 0 :=
+    p.sum_matched_comm (fun _ j => q.rowCost cMN uM j)
+  have S2 : (∑ k, match q.g k with | some j => G j | none => 0)
+      = ∑ j, match q.f j with | some _ => G j | none => 0 := by
+    have := q.symm.sum_matched_comm (fun _ j => G j)
+    simpa using this
+  unfold PM.sumCost
+  calc (∑ i, (p.comp q).rowCost cLN uL i) + ∑ k, (p.comp q).colCost uN k
+      ≤ (∑ i, (p.rowCost cLM uL i + (match p.f i with | some j => q.rowCost cMN uM j | none => 0)))
+        + ∑ k, (q.colCost uN k + (match q.g k with | some j => G j | none => 0)) :=
+        add_le_add (Finset.sum_le_sum fun i _ => B1 i) (Finset.sum_le_sum fun k _ => B2 k)
+    _ = (∑ i, p.rowCost cLM uL i) + (∑ k, q.colCost uN k)
+        + ∑ j, ((match p.g j with | some _ => q.rowCost cMN uM j | none => 0)
+            + (match q.f j with | some _ => G j | none => 0)) := by
+        rw [Finset.sum_add_distrib, Finset.sum_add_distrib, Finset.sum_add_distrib, S1, S2]
+        abel
+    _ ≤ (∑ i, p.rowCost cLM uL i) + (∑ k, q.colCost uN k)
+        + ∑ j, (p.colCost uM j + q.rowCost cMN uM j) := by
+        exact add_le_add_right (Finset.sum_le_sum fun j _ => PJ j) _
+    _ = (∑ i, p.rowCost cLM uL i) + (∑ j, p.colCost uM j)
+        + ((∑ j, q.rowCost cMN uM j) + ∑ k, q.colCost uN k) := by
+        rw [Finset.sum_add_distrib]; abel
+
+/-- **triangle inequality for the min–sum cost** -/
+theorem minSum_triangle
+    {cLM : L → M → K} {cMN : M → N → K} {cLN : L → N → K} {uL : L → K} {uM : M → K} {uN : N → K}
+    (htri : ∀ i j k, cLN i k ≤ cLM i j + cMN j k)
+    (hL : ∀ i j, uL i ≤ cLM i j + uM j) (hN : ∀ j k, uN k ≤ uM j + cMN j k)
+    (hcMN : ∀ j k, 0 ≤ cMN j k) (huM : ∀ j, 0 ≤ uM j)
+    {w1 w2 w : K} (h1 : IsMinSum cLM uL uM w1) (h2 : IsMinSum cMN uM uN w2)
+    (h : IsMinSum cLN uL uN w) : w ≤ w1 + w2 := by
+  obtain ⟨⟨p, hp⟩, _⟩ := h1
+  obtain ⟨⟨q, hq⟩, _⟩ := h2
+  calc w ≤ (p.comp q).sumCost cLN uL uN := h.least _
+    _ ≤ p.sumCost cLM uL uM + q.sumCost cMN uM uN := p.sumCost_comp_le q htri hL hN hcMN huM
+    _ = w1 + w2 := by rw [hp, hq]
+
+end TriangleSum
+
 end PersimVerif.Spec
